@@ -49,8 +49,9 @@ def main():
         return 2
     ok = True
     try:
-        shutil.copy(demo, os.path.join(scratch, '_seed_demo.py'))
-        env = 'PYTHONDONTWRITEBYTECODE=1 timeout 600 /venv/bin/python _seed_demo.py'
+        os.makedirs(os.path.join(scratch, '_mut', 'S'), exist_ok=True)
+        shutil.copy(demo, os.path.join(scratch, '_mut', 'S', 'demo.py'))
+        env = 'PYTHONDONTWRITEBYTECODE=1 PYTHONPATH=%s timeout 600 /venv/bin/python _mut/S/demo.py' % scratch
         rc, out = sh(env, cwd=scratch)
         meta['demo_clean_exit'] = rc
         meta['ran'].append('demo on clean tree: exit %d' % rc)
@@ -74,33 +75,31 @@ def main():
             if rc == 0:
                 ok = False
                 print('demo does not fail with the patch applied')
-    finally:
+    except Exception:
         sh('git -C /repo worktree remove --force %s' % scratch)
         shutil.rmtree(scratch, ignore_errors=True)
+        raise
     meta['confirmed'] = ok
     if not ok and not a.keep_anyway:
+        sh('git -C /repo worktree remove --force %s' % scratch)
+        shutil.rmtree(scratch, ignore_errors=True)
         print(json.dumps(meta, indent=1))
         print('NOT CONFIRMED - nothing kept')
         return 1
-    # run the checks against /repo with the patch applied
-    rc, out = sh('git -C /repo status --porcelain')
-    if out.strip():
-        print('/repo working tree is not clean; refusing')
-        return 2
-    rc, out = sh('git -C /repo apply %s' % patch)
-    if rc:
-        print('patch does not apply to /repo:', out)
-        return 2
+    # run the checks against the patched scratch worktree (EMD_REPO points the checks at it; /repo is never touched,
+    # which is equivalent to `git -C /repo apply` + `git -C /repo checkout -- .` but safe next to background runs)
+    shutil.rmtree(os.path.join(scratch, '_mut'), ignore_errors=True)
     detected = {}
     try:
         for c in checks:
             t0 = time.time()
-            rc, out = sh('%s/bin/check %s --tier %s' % (ROOT, c, a.tier), cwd=ROOT, timeout=7200)
+            rc, out = sh('EMD_REPO=%s %s/bin/check %s --tier %s' % (scratch, ROOT, c, a.tier), cwd=ROOT, timeout=7200)
             lines = [l for l in out.splitlines() if l.startswith(('VIOLATION', 'HARNESS-ERROR', 'OK', '  %s:' % c))]
             detected[c] = {'exit': rc, 'wall_s': round(time.time() - t0, 1), 'summary': [l[:300] for l in lines[:6]]}
-            meta['ran'].append('bin/check %s --tier %s with patch applied to /repo: exit %d' % (c, a.tier, rc))
+            meta['ran'].append('EMD_REPO=<patched scratch worktree> bin/check %s --tier %s: exit %d' % (c, a.tier, rc))
     finally:
-        sh('git -C /repo checkout -- .')
+        sh('git -C /repo worktree remove --force %s' % scratch)
+        shutil.rmtree(scratch, ignore_errors=True)
     meta['checks'] = detected
     meta['caught_by'] = [c for c, d in detected.items() if d['exit'] == 1]
     dst = os.path.join(ROOT, 'seeded', a.seed_id)
